@@ -53,6 +53,15 @@ def run(res, replay=None):
                 s['start_time'] = rng.choice([0.25, 0.5])
                 s['end_time'] = s['end_time'] + 1.0
             cases.append({'spec': s, 'unreachable': unreachable})
+    if not replay:
+        # designed: the OTHER model family (which enumerates the same states in another order) with the same layout is asked for
+        # its marginals earlier in the same process
+        base = {'n_items': [['a', 2], ['b', 2]], 'pop_sizes': {'a': {'0.0': 1.0}, 'b': {'0.0': 2.0, '1.0': 0.5}},
+                'migration_rates': {'a>b': {'0.0': 0.5}, 'b>a': {'0.0': 1.0}}, 'end_time': 6.0}
+        for mdl, pre in (({'kind': 'beta', 'alpha': 1.5, 'scale_time': False}, {'kind': 'kingman'}),
+                         ({'kind': 'kingman'}, {'kind': 'dirac', 'psi': 0.5, 'c': 1.0, 'scale_time': False})):
+            cases.append({'spec': dict(base, model=mdl, designed='other_family_first'), 'unreachable': [],
+                          'prelude': [dict(base, model=pre, n_items=[['a', 3], ['b', 1]])]})
     orc.run_oracle(res, 'marginals', cases, chunk=1)
     # correspondence of per-population means with the model
     items = []
